@@ -45,6 +45,16 @@ def run(ctx):
         for k in ('two_piece_runs_resumed_after_need_more', 'two_piece_runs_terminal_on_prefix', 'multi_piece_segmentation_runs'):
             if c.get(k, 0) < 1000:
                 raise HarnessError('vacuity guard: %s = %d' % (k, c.get(k, 0)))
+    samples, seen = [], set()
+    for k in sorted(c):
+        if k.startswith('sample:'):
+            klass = k.split(' -> ', 1)[1].split(';')[0]
+            if klass not in seen:
+                seen.add(klass)
+                samples.append(k[len('sample:'):])
+    if samples:
+        cov['samples'] = samples[:8]
+    cov['counters'] = {k: v for k, v in c.items() if not k.startswith('sample:')}
     for k in ('parser_calls', 'two_piece_runs', 'two_piece_runs_resumed_after_need_more', 'two_piece_runs_terminal_on_prefix',
               'multi_piece_segmentation_runs'):
         cov[k] = c.get(k, 0)
